@@ -22,7 +22,7 @@ class C09(core.Prop):
     correspondence = "real Driver/SwitchVector transitions and published setSwitchVector children vs Driver.Switch.step"
     rule = ("exhaustive: 3 rules x 1..4 switches (5 in thorough) x every initial configuration x every single operation "
             "{assign value/bool_value On/Off to each switch, client write of every ordered pair of (switch,value) incl. an unknown switch, "
-            "selected_values of every subset, selected_value of each switch}; plus random operation sequences of length <= 12; "
+            "selected_values of every subset, selected_value of each switch}; plus random operation sequences of length <= 12; plus every client write on 2-3 switches with a Write handler that defers it (prevent_default) and shows the property Busy; "
             "non-trivial = the operation changed the state or published an update; distinct by (rule, initial, ops)")
     assumptions = ["all elements of the vector are enabled (a published update then lists every switch)",
                    "driver-side selected_value(s) are given names the vector has (the setter rejects others by design)"]
@@ -86,9 +86,19 @@ class C09(core.Prop):
             allops = self.single_ops(n)
             ops = [rng.choice(allops) for _ in range(rng.randint(2, 10))]
             cases.append({"rule": rule, "init": init, "ops": ops, "hidden": hidden, "label": "hidden-sequence"})
+        # every write deferred by a Write handler (prevent_default) that shows the property Busy: nothing may change,
+        # and what the handler publishes shows the switches as they were
+        for rule in RULES:
+            for n in (2, 3):
+                for init in itertools.product((False, True), repeat=n):
+                    for op in self.single_ops(n):
+                        if op[0] == "write":
+                            cases.append({"rule": rule, "init": list(init), "ops": [op], "veto": True, "label": "vetoed-write"})
         return cases
 
     def model_input(self, c):
+        if c.get("veto"):
+            return [c["rule"], c["init"], []]      # a vetoed write is no operation of the switch model (C14: veto leaves state and wire alone)
         ops = []
         for op in c["ops"]:
             if op[0] == "assign":
@@ -104,6 +114,14 @@ class C09(core.Prop):
             return "model rejected input %r" % (mout,)
         if obs["status"] != "ok":
             return "implementation %s" % obs["status"]
+        if c.get("veto"):
+            for k, o in enumerate(obs["ops"]):
+                if o["raised"]:
+                    return "vetoed operation %d raised %s" % (k, o["raised"])
+                if o["state"] != c["init"] or any(p != c["init"] for p in o["pubs"]):
+                    return "vetoed write %s: state %s, published %s; the switches were %s and every element's write was vetoed" % (
+                        c["ops"][k], o["state"], o["pubs"], c["init"])
+            return None
         for k, (o, m) in enumerate(zip(obs["ops"], mout)):
             if o["raised"]:
                 return "operation %d %s raised %s" % (k, c["ops"][k][0], o["raised"])
@@ -137,7 +155,9 @@ class C09(core.Prop):
                 exp[op[1]] = op[2]
                 if o["state"] != exp:
                     return "anyofmany-frame: assignment %s changed %s into %s" % (op, prev, o["state"])
-            if op[0] == "write" and rule == "AnyOfMany":
+            if c.get("veto") and o["state"] != prev:
+                return "vetoed-write-changed: write %s, vetoed for every element, changed %s into %s (%s)" % (op, prev, o["state"], rule)
+            if op[0] == "write" and rule == "AnyOfMany" and not c.get("veto"):
                 exp = list(prev)
                 for i, v in op[1]:
                     if i < len(exp):
